@@ -78,19 +78,33 @@ def run(chk):
     both = [c for c in g5.cases("CASE") if sum(1 for e in c["prog"] if e["e"] == "where") >= 2]
     rnd.shuffle(both)
     shapes += both[:60 if quick else 2000]
+    g6 = chk.tlc("Stmt", c01.cfg(chk, "gen6", 12, kinds=("insert",), known=c01.ALL_DEV, emit=True, clauses={"union", "ubranch"}, tbl=("a", "b"), ctes=("x",),
+                                 schemas=("none",), maxcte=0, maxrel=1, maxdepth=3), "generate: set operations nested two levels deep", workers=1,
+                 coverage=False, timeout=6000)
+    deep = [c for c in g6.cases("CASE") if sum(1 for e in c["prog"] if e["e"] == "ubranch") >= 2]
+    rnd.shuffle(deep)
+    shapes += deep[:40 if quick else 1000]
+    # programs where the listed deviation of the shared machinery fires (a CTE body reading a table named like the CTE): the analysers
+    # have to agree on those too
+    g7 = chk.tlc("Stmt", c01.cfg(chk, "gen7", 7, kinds=("insert", "query"), known=c01.ALL_DEV, emit=True, clauses={"where"}, tbl=("a",), ctes=("a",),
+                                 maxrel=2), "generate: CTE named like a table it reads", workers=1, coverage=False, timeout=6000)
+    selfn = [c for c in g7.cases("CASE") if c.get("fired")]
+    rnd.shuffle(selfn)
+    shapes += selfn[:40 if quick else 1000]
     rnd.shuffle(shapes)
     allds = [d for d in dialects() if d != "ansi"]
     if quick:
         rnd.shuffle(cases)
-        cases = cases[:450] + shapes[:300]
+        cases = cases[:450] + shapes[:380]
     else:
         cases += shapes[:4000]
     jobs, owner = [], []
     for c in cases:
         # quick: every program under ansi, the sqlparse analyzer and a random third of the other dialects - all dialects every run
         ds = allds if not quick else rnd.sample(allds, len(allds) // 3)
+        wop = rnd.choice(["in", "in", "exists", "in_with_bracket"]) if any(e["e"] == "where" for e in c["prog"]) else "in"
         for d in ["ansi"] + ds + ["non-validating"]:
-            jobs.append({"prog": c["prog"], "dialect": d, "check_accept": d != "non-validating"})
+            jobs.append({"prog": c["prog"], "dialect": d, "check_accept": d != "non-validating", "opts": {"where_op": wop}})
             owner.append(c)
     obs = stmt_variants.run(jobs)
     sel_c, sel_o = [], []
@@ -106,6 +120,23 @@ def run(chk):
     chk.cov["variants_rejected_by_the_parser_itself"] = skipped
     column_part(chk, quick, rnd)
     verdicts = c01.decide(chk, sel_c, sel_o, "dial")
+    # agreement itself: for one program, an analyser that conforms to the ideal next to one that shows a listed deviation of the
+    # shared machinery is a disagreement between them (per-dialect findings are rejections and do not take part)
+    groups = {}
+    for c, o, v in zip(sel_c, sel_o, verdicts):
+        if v in ("ok", "known"):
+            groups.setdefault(id(c), []).append((o, v, c))
+    for g in groups.values():
+        kinds = {v for _, v, _ in g}
+        if len(kinds) > 1:
+            odd = [o for o, v, _ in g if v == "ok"]
+            dev = [o for o, v, _ in g if v == "known"]
+            chk.reject({"module": "Stmt", "clause": "dialects_disagree", "dialect": odd[0]["dialect"] if len(odd) <= len(dev) else dev[0]["dialect"],
+                        "features": c01.prog_features(g[0][2]["prog"])},
+                       {"verdict": "dialects_disagree", "sql": g[0][0]["sql"], "dialect": odd[0]["dialect"], "ideal_reads": sorted(g[0][2]["reads"]),
+                        "ideal_target": sorted(g[0][2]["target"]), "observed": {"conforming": [(o["dialect"], o["reads"]) for o in odd][:6],
+                                                                                 "deviating": [(o["dialect"], o["reads"]) for o in dev][:6]},
+                        "program": g[0][2]["prog"]})
     byd = {}
     for o, v in zip(sel_o, verdicts):
         byd.setdefault(o["dialect"], {}).setdefault(v if v in ("ok", "known") else "rejected", 0)
